@@ -46,6 +46,9 @@ T = {
  "C03": ("invariant monitors on every estimator's output (shape, real dtype, finite, unit norm / proper rotation) + online monitor on each update/estimate step through probes",
          "Runtime monitoring: 46 estimator configurations (all 19 exported classes x architectures x frames x representations) are constructed over histories of 2-80 samples of six kinds (random inconsistent over 5 decades, consistent, moving, exactly level / inverted / vertical) with default and randomly drawn valid parameters (gains, 1 Hz-2 kHz, noise variances over 4 decades, dips, weights); every output row and every intermediate step is checked.",
          "NumPy; validity only; pose singularities of published closed forms and UKF's LinAlgError are known findings keyed by (estimator, clause, pose kind)", "5/C03"),
+ "C13": ("fault injection (zeroed sensor rows) + twin-history checker (faulted vs fault-free run of the real filter), batch and streamed",
+         "Fault enumeration by runtime monitoring: for 16 recursive filter configurations every (sensor subset, start, length<=3) dropout inside a 12-sample window is enumerated exhaustively (2904 faults) and long/repeated bursts are sampled; each faulted history is run through the constructor and, sample by sample, through update() with refused samples skipped; the run must refuse with ValueError or emit only finite unit quaternions, keep its carried state (P, bias, gains) finite, and K samples after the fault be back within tolerance of its fault-free twin (K from C05's bound when the first sample is lost).",
+         "NumPy; slowly rotating consistent trajectories with gyro bias/noise; recovery bounds calibrated on the pinned tree; Fourati's recovery time is unbounded by design (not judged); UKF instability is a known finding", "5/C13", "fault_enumeration"),
 }
 
 def main():
